@@ -94,7 +94,8 @@ def fresh_node_id(tracks, rng, graveyard=()):
     if graveyard and rng.random() < 0.25:
         # the id of a node that existed earlier in this session (deleted, erased, undone)
         # is free again and may be given to a new node in any frame
-        cand = [n for n in graveyard if n not in used and n > 0]
+        cand = [n for n in graveyard if n not in used
+                and (n > 0 or tracks.segmentation is None)]
         if tracks.segmentation is not None:
             labs = set(int(x) for x in np.unique(tracks.segmentation))
             cand = [n for n in cand if n not in labs]
@@ -102,6 +103,8 @@ def fresh_node_id(tracks, rng, graveyard=()):
             return rng.choice(cand)
     if tracks.segmentation is not None:
         used |= set(int(x) for x in np.unique(tracks.segmentation))
+    if tracks.segmentation is None and 0 not in used and rng.random() < 0.1:
+        return 0  # a caller-chosen id of 0 is legal without a label image
     if rng.random() < 0.6:
         return max(used | {0}) + 1
     while True:
